@@ -155,8 +155,8 @@ def value_conforms(v, dtype):
         return False
     if type(v) is not t:
         return False
-    if t in (dt.time, dt.datetime) and v.microsecond != 0:
-        return False
+    if t in (dt.time, dt.datetime) and (v.microsecond != 0 or v.tzinfo is not None):
+        return False   # normal form: no sub-second part, naive
     return True
 
 
